@@ -27,8 +27,8 @@ Ltac inv_step H :=
   repeat match goal with E : get_sum _ _ = Ok _ |- _ => apply get_sum_In in E end.
 
 (** one step of the repaired code preserves "every summary is a partition" *)
-Lemma vstep_partition debug st o st' :
-  all_sums partition st -> vstep debug true st o = Ok st' -> all_sums partition st'.
+Lemma vstep_partition rp debug st o st' :
+  all_sums partition st -> vstep rp debug true st o = Ok st' -> all_sums partition st'.
 Proof.
   intros Ha H. destruct o; cbn [vstep] in H; inv_step H.
   - apply all_sums_push; [assumption |]. intros v. apply new_partition.
@@ -45,8 +45,8 @@ Qed.
 
 (** one step - of the code as it is or repaired - preserves "every summary denotes a
     total function" *)
-Lemma vstep_functional debug fixed st o st' :
-  all_sums functional st -> vstep debug fixed st o = Ok st' -> all_sums functional st'.
+Lemma vstep_functional rp debug fixed st o st' :
+  all_sums functional st -> vstep rp debug fixed st o = Ok st' -> all_sums functional st'.
 Proof.
   intros Ha H. destruct o; cbn [vstep] in H; inv_step H.
   - apply all_sums_push; [assumption |]. intros v. exists x. apply new_denotes.
@@ -63,8 +63,8 @@ Proof.
   - exact Ha.
 Qed.
 
-Lemma vrun_partition debug prog : forall st st',
-  all_sums partition st -> vrun debug true st prog = Ok st' -> all_sums partition st'.
+Lemma vrun_partition rp debug prog : forall st st',
+  all_sums partition st -> vrun rp debug true st prog = Ok st' -> all_sums partition st'.
 Proof.
   induction prog as [| o prog IH]; intros st st' Ha H; cbn [vrun] in H.
   - inversion H; subst. exact Ha.
@@ -72,8 +72,8 @@ Proof.
     eapply IH; [| eassumption]. eapply vstep_partition; eassumption.
 Qed.
 
-Lemma vrun_functional debug fixed prog : forall st st',
-  all_sums functional st -> vrun debug fixed st prog = Ok st' -> all_sums functional st'.
+Lemma vrun_functional rp debug fixed prog : forall st st',
+  all_sums functional st -> vrun rp debug fixed st prog = Ok st' -> all_sums functional st'.
 Proof.
   induction prog as [| o prog IH]; intros st st' Ha H; cbn [vrun] in H.
   - inversion H; subst. exact Ha.
@@ -85,17 +85,17 @@ Lemma all_sums_init P : all_sums P vinit.
 Proof. intros s []. Qed.
 
 (** [partition_inv], for the repaired [coalesce_entries] *)
-Lemma partition_inv_lemma debug prog st :
-  vrun debug true vinit prog = Ok st ->
+Lemma partition_inv_lemma rp debug prog st :
+  vrun rp debug true vinit prog = Ok st ->
   forall s, In s (vs_sums st) -> forall v, count_true v s = 1.
-Proof. intros H s Hs. exact (vrun_partition debug prog vinit st (all_sums_init _) H s Hs). Qed.
+Proof. intros H s Hs. exact (vrun_partition rp debug prog vinit st (all_sums_init _) H s Hs). Qed.
 
 (** what does hold for the code as it is: every reachable summary denotes a total
     function of the valuation (true entries may overlap, but agree on the value) *)
-Lemma functional_inv_lemma debug fixed prog st :
-  vrun debug fixed vinit prog = Ok st ->
+Lemma functional_inv_lemma rp debug fixed prog st :
+  vrun rp debug fixed vinit prog = Ok st ->
   forall s, In s (vs_sums st) -> forall v, exists x, denotes v s x.
-Proof. intros H s Hs. exact (vrun_functional debug fixed prog vinit st (all_sums_init _) H s Hs). Qed.
+Proof. intros H s Hs. exact (vrun_functional rp debug fixed prog vinit st (all_sums_init _) H s Hs). Qed.
 
 (* ------------------------------------------------------------------ witnesses *)
 
@@ -116,20 +116,20 @@ Definition last_sum (r : res vstate) : summary :=
     where t0 = t1 = 1, and the value v0 occurs twice *)
 Lemma partition_refuted_lemma :
   exists prog st s v,
-    (forall debug, vrun debug false vinit prog = Ok st) /\ In s (vs_sums st) /\
+    (forall debug, vrun no_repairs debug false vinit prog = Ok st) /\ In s (vs_sums st) /\
     count_true v s = 2 /\ ~ NoDup (map snd s).
 Proof.
   exists abba_prog.
-  eexists. exists (last_sum (vrun false false vinit abba_prog)), (fun _ => true).
+  eexists. exists (last_sum (vrun no_repairs false false vinit abba_prog)), (fun _ => true).
   split; [intros [|]; vm_compute; reflexivity |].
   split; [vm_compute; auto 10 |]. split; [vm_compute; reflexivity |].
   vm_compute. intros H. inversion H as [| ? ? Hn _]; subst. apply Hn. right. now left.
 Qed.
 
 (** ... the repaired code does not, on the same history *)
-Lemma abba_fixed : forall v, count_true v (last_sum (vrun false true vinit abba_prog)) = 1.
+Lemma abba_fixed : forall v, count_true v (last_sum (vrun no_repairs false true vinit abba_prog)) = 1.
 Proof.
-  intros v. eapply (partition_inv_lemma false abba_prog); [vm_compute; reflexivity |].
+  intros v. eapply (partition_inv_lemma no_repairs false abba_prog); [vm_compute; reflexivity |].
   vm_compute. auto 10.
 Qed.
 
@@ -137,7 +137,7 @@ Definition cmp8 : expr := BVGreater (BVSymbol "a" 8) (BVSymbol "b" 8).
 
 (** [expr_to_guard] panics on a well-typed boolean expression, in every build *)
 Lemma guard_panics_lemma :
-  exists e, wt e = true /\ expr_is_bool e = true /\ forall debug t, expr_to_guard debug t e = Panic.
+  exists e, wt e = true /\ expr_is_bool e = true /\ forall debug t, expr_to_guard no_repairs debug t e = Panic.
 Proof.
   exists cmp8. split; [vm_compute; reflexivity |]. split; [reflexivity |].
   intros [|] t; reflexivity.
@@ -149,7 +149,7 @@ Definition bool_ite : expr := BVIte t0 t1 (BVSymbol "t2" 1).
     builds and a panic in debug builds *)
 Lemma guard_debug_assert_lemma :
   exists e, wt e = true /\ expr_is_bool e = true /\
-    (forall t, expr_to_guard true t e = Panic) /\ (forall t, exists r, expr_to_guard false t e = Ok r).
+    (forall t, expr_to_guard no_repairs true t e = Panic) /\ (forall t, exists r, expr_to_guard no_repairs false t e = Ok r).
 Proof.
   exists bool_ite. split; [vm_compute; reflexivity |]. split; [reflexivity |]. split.
   - intros t. unfold expr_to_guard. rewrite (e2g_panics true bool_ite t) by reflexivity.
@@ -163,5 +163,5 @@ Definition binfalse_prog : list vop :=
    OBin (fun _ => 0%N) (fun a _ => a) 5 6].
 
 Lemma bin_debug_assert_lemma :
-  exists prog, vrun true false vinit prog = Panic /\ exists st, vrun false false vinit prog = Ok st.
+  exists prog, vrun no_repairs true true vinit prog = Panic /\ exists st, vrun no_repairs false true vinit prog = Ok st.
 Proof. exists binfalse_prog. split; [vm_compute; reflexivity |]. eexists. vm_compute. reflexivity. Qed.
